@@ -480,3 +480,4 @@ func VerifH_C17_UniformRekeyed() {
 	}
 	vCover("C17-uniform-rekeyed-reached")
 }
+
